@@ -158,13 +158,21 @@ theorem strict_priority_waiting (cfg : Cfg) (tbl : List Nat) (ops : List Op) (pr
     (hsess : (run (init cfg tbl) ops).sessions = pre ++ q :: post)
     (curj : Option Cur) (hfree : q.slots[j]? = some curj) (hav : Avail (run (init cfg tbl) ops) now curj)
     (hfind : findNext (run (init cfg tbl) ops) q.prio now (run (init cfg tbl) ops).queue = some t)
-    (hnf : NoFaultOps ops) :
+    (hnf : QueueFaultFree (run (init cfg tbl) ops) q.prio) :
     (read (run (init cfg tbl) ops) now ticks).2 ≠ Out.none ∧
     ∀ p t i b, (read (run (init cfg tbl) ops) now ticks).2 = Out.pkt p t i b → p ≤ q.prio := by
   obtain ⟨h1, h2⟩ := read_wait cfg tbl ops pre post q j t now ticks hsorted hsess curj hfree hav hfind
     (fun u _ g hg _ hw => stale_run cfg tbl ops g (getF_mem hg) hw)
-    (fun u _ g hg _ => faultfree_run cfg tbl ops hnf u g hg)
+    hnf
   exact ⟨h1, fun p t i b e => prio_le_of_sorted cfg tbl ops pre post q hsorted hsess p (h2 p t i b e)⟩
+
+/-- the fault hypothesis of `strict_priority_waiting` / `strict_priority` / `idle_only_when_nothing_ready` is LOCAL: only
+    the objects waiting for a slot of queue `q` must have buffer sources (`QueueFaultFree`); a faulty stream object in
+    another queue, or one already in transfer, does not remove the theorems.  A history that only adds buffer-sourced
+    objects (`NoFaultOps`) satisfies it for every queue. -/
+theorem queueFaultFree_of_noFaultOps (cfg : Cfg) (tbl : List Nat) (ops : List Op) (hnf : NoFaultOps ops) (P : Nat) :
+    QueueFaultFree (run (init cfg tbl) ops) P :=
+  fun u _ g hg _ => faultfree_run cfg tbl ops hnf u g hg
 
 /-- `q` has something READY at `now`: a transfer in one of its slots whose next packet is due, or an available slot
     (empty, or holding a finished transfer with an open gate) and a waiting object that `get_next_file_transfer`
@@ -187,7 +195,7 @@ theorem strict_priority (cfg : Cfg) (tbl : List Nat) (ops : List Op) (pre post :
     (now : Nat) (ticks : List (Nat × Nat))
     (hsorted : (cfg.queues.map (fun x => x.1)).Pairwise (fun a b => a < b))
     (hsess : (run (init cfg tbl) ops).sessions = pre ++ q :: post)
-    (hready : Ready (run (init cfg tbl) ops) q now) (hnf : NoFaultOps ops) :
+    (hready : Ready (run (init cfg tbl) ops) q now) (hnf : QueueFaultFree (run (init cfg tbl) ops) q.prio) :
     (read (run (init cfg tbl) ops) now ticks).2 ≠ Out.none ∧
     ∀ p t i b, (read (run (init cfg tbl) ops) now ticks).2 = Out.pkt p t i b → p ≤ q.prio := by
   rcases hready with ⟨j, c, f, h1, h2, h3, h4, h5⟩ | ⟨j, t, curj, h1, h2, h3⟩
@@ -203,7 +211,8 @@ theorem idle_only_when_nothing_ready (cfg : Cfg) (tbl : List Nat) (ops : List Op
     (now : Nat) (ticks : List (Nat × Nat))
     (hsorted : (cfg.queues.map (fun x => x.1)).Pairwise (fun a b => a < b))
     (hsess : (run (init cfg tbl) ops).sessions = pre ++ q :: post)
-    (hnone : (read (run (init cfg tbl) ops) now ticks).2 = Out.none) (hnf : NoFaultOps ops) :
+    (hnone : (read (run (init cfg tbl) ops) now ticks).2 = Out.none)
+    (hnf : QueueFaultFree (run (init cfg tbl) ops) q.prio) :
     ¬ Ready (run (init cfg tbl) ops) q now :=
   fun hr => (strict_priority cfg tbl ops pre post q now ticks hsorted hsess hr hnf).1 hnone
 
